@@ -1,4 +1,11 @@
-"""Base class of routing-environment adapters: defaults + the generic C04/C05/C06 extras."""
+"""Base class of routing-environment adapters: defaults + the generic C04/C05/C06 extras.
+
+C06 (`extra_c06`): single-fault corruptions of complete mask-made solutions, one row at a time, and then
+(`batched_checker`) the same lists as rows of BATCHES of 2-4 different instances handed to the real checker in one
+call -- valid rows with one rejected row at index 0 / >= 1 / last, two rejected rows, valid rows only; the batch verdict is
+judged with the per-row Coq model / specification.
+C02 / C04: `book_keys` / `book_fn` / `book_type` declare the bookkeeping keys of the env's step output that are compared
+with the row model after every step (vt/envprops.book_stage, Harness/HBook.v)."""
 from __future__ import annotations
 
 import torch
@@ -17,6 +24,54 @@ class RoutingAdapter:
     sol_type = None              # Coq type of (instance, actions, verdict) cases for C06 corruptions
     sol_fn = None
     tiny = 4                     # largest number of customers for exhaustive expansion (quick tier)
+    batch_pad = True             # C06 batched checker calls: shorter action lists are padded with trailing depot visits
+    # Bookkeeping comparison (C02 / C04; Harness/HBook.v + `check_book` of the adapter's H<ENV>.v): the keys of the env's step
+    # output that the row model has a counterpart for, in the order of the harness' `book_obs`; kinds: "int" (integer scalar),
+    # "f" (float32 scalar, scaled exactly by 2^64), "bits" (bool / uint8 vector as a number, bit j = entry j),
+    # "fvec" (float32 vector, one entry per element).  Empty = nothing compared.
+    book_keys = ()
+    book_fn = None               # Gallina function (book case -> Z)
+    book_type = None             # Coq type of a book case: (instance, tolerances, entries after reset, [(action, entries)])
+
+    def book_values(self, td):
+        """per batch row: the flattened list of the raw values of `book_keys` in td (python ints / floats; called after
+        every step of every rollout, so nothing is converted here -- `book_encode` does that for the episodes compared)"""
+        B = td.batch_size[0]
+        cols = []
+        for key, kind in self.book_keys:
+            v = td[key].reshape(B, -1)
+            if kind in ("int", "f"):
+                cols.append([[x] for x in v[:, 0].tolist()])
+            elif kind == "bits":
+                cols.append([[sum((1 << j) for j, b in enumerate(row) if b)] for row in v.tolist()])
+            elif kind == "fvec":
+                cols.append(v.tolist())
+            else:
+                raise KeyError(kind)
+        return [[x for c in cols for x in c[r]] for r in range(B)]
+
+    @staticmethod
+    def book_encode(raw_row, is_float):
+        """integers as they are, float32 values scaled exactly by 2^64 (ValueError if not on that grid)"""
+        return [envh.zs(x) if fl else int(x) for x, fl in zip(raw_row, is_float)]
+
+    def book_names(self, td_row):
+        """names of the flattened entries (for reports), and which of them are floats"""
+        names, is_float = [], []
+        for key, kind in self.book_keys:
+            if kind == "fvec":
+                k = td_row[key].reshape(1, -1).shape[1]
+                names += ["%s[%d]" % (key, j) for j in range(k)]
+                is_float += [True] * k
+            else:
+                names.append(key)
+                is_float.append(kind == "f")
+        return names, is_float
+
+    def book_exact(self, item):
+        """every float32 operation of the env is exact on this instance (exact-grid stream): float entries are compared with
+        tolerance 0; otherwise relative 2^-17 of the largest value the entry takes in the episode"""
+        return str((item.meta or {}).get("kind", "")).startswith("exact")
 
     def choosers(self, tier):
         return ["uniform", "uniform", "depot_first", "depot_last", "low", "high"] if tier == "thorough" else \
@@ -225,4 +280,213 @@ class RoutingAdapter:
                                     tag="corr-" + self.name)
             ctx.broken.append("correspondence C06/%s (hand-built and corrupted solutions): %d disagreement(s); first: code %d on a '%s' corruption, case file %s" % (
                 self.name, nd, c, kind, path))
-        return {"c06_solutions": len(cases), "c06_disagreements": nd, "c06_concrete": nc}
+        out = {"c06_solutions": len(cases), "c06_disagreements": nd, "c06_concrete": nc}
+        rows = [(it, kind, acts, v) for it, kind, acts, v in meta]
+        rows += [(it, "original", list(it.ep.actions), bool(it.ep.checker)) for it in done_items[: (60 if tier == "quick" else 300)]
+                 if it.ep.checker is not None and it.ep.actions]
+        if getattr(self, "_defer_batches", False):
+            self._c06_rows = rows          # the adapter adds its hand-built lists and runs ONE batched stage (vt/envs/_handsol.py)
+        else:
+            out.update(self.batched_checker(ctx, tier, rows))
+        return out
+
+    # ------------------------------------------------------------------ C06: the checker on BATCHES of solutions
+    def batch_priority(self, row):
+        """rejected rows with a smaller value are put into batches first (adapters: the faults only their checker knows)"""
+        return 0
+
+    def batched_checker(self, ctx, tier, rows, prefix="batched", cap=None):
+        """The shipped checkers assert over the whole batch (`.all()` over [B, ...] tensors, loops over `nonzero` of the
+        whole action tensor): one row at a time cannot tell `.all()` from `.any()` nor a row index from a position.
+        rows: (item, kind, action list, verdict of the real checker on that row ALONE).  Composes batches of 2-4 rows of
+        the same env and shape -- valid rows of DIFFERENT instances with one rejected row at index 0 / >= 1 / last, two
+        rejected rows, valid rows only -- pads shorter lists with trailing depot visits (`batch_pad`), calls the REAL
+        checker once per batch, and judges the batch verdict V with the per-row Coq model / specification (`sol_fn`):
+          V = accepted: every row is evaluated as (instance, list, accepted): 15 = an infeasible row was accepted (concrete),
+                        13 = the row model rejects it;
+          V = rejected: every row is evaluated as (instance, list, rejected): a row with code 0 explains the rejection; if no
+                        row does, the batch of solutions that are ALL feasible by the definition was rejected (14, concrete,
+                        when every row says so; a disagreement otherwise).
+        When a batch disagrees with the row models and nothing concrete was found (e.g. the wrongly accepted row belongs
+        to an instance outside the theorems' hypotheses, where the specification does not speak), the SEARCH pairs every
+        other rejected row with a valid row of another instance and looks for concrete failures only."""
+        from vt.envprops import Item, CONCRETE, hexrow
+        import time as _t
+        if not self.sol_fn or not rows:
+            return {}
+        _t00 = _t.time()
+        rng = ctx.rng
+        groups = {}
+        for row in rows:
+            it, kind, acts, v = row
+            if not acts or v is None:
+                continue
+            key = (id(it.env), tuple((k, tuple(it.td_reset[k].shape[1:])) for k in sorted(it.td_reset.keys())))
+            groups.setdefault(key, []).append(row)
+        cap = cap or (10 if tier == "quick" else 60)
+        keys = list(groups)
+        rng.shuffle(keys)
+        per = max(2, cap // max(1, len(keys)) + 1)
+        split = {}
+        for key in keys:
+            good = [r for r in groups[key] if r[3]]
+            bad = [r for r in groups[key] if not r[3]]
+            rng.shuffle(good)
+            rng.shuffle(bad)
+            bad.sort(key=self.batch_priority)          # stable: random order within one priority
+            split[key] = (good, bad)
+
+        def others(key, b, k):
+            """k valid rows of the group, of instances other than b's (and pairwise different) where the group has them"""
+            good = split[key][0]
+            pool = [g for g in good if b is None or g[0].td_in is not b[0].td_in]
+            out_, seen_ = [], set()
+            for g in pool:
+                if id(g[0].td_in) not in seen_:
+                    out_.append(g)
+                    seen_.add(id(g[0].td_in))
+                if len(out_) == k:
+                    break
+            for g in good:
+                if len(out_) == k:
+                    break
+                if g not in out_:
+                    out_.append(g)
+            return out_
+
+        plans, used = [], set()
+        for key in keys:
+            good, bad = split[key]
+            for q, b in enumerate(bad[: per]):
+                size = [2, 3, 4, 4][q % 4]
+                mates = others(key, b, size - 1)
+                if not mates:
+                    continue
+                pos = min([len(mates), 0, 1, len(mates)][q % 4], len(mates))           # last, first, second, last
+                plans.append(("one-rejected-row@%s" % ("0" if pos == 0 else ">=1"), mates[:pos] + [b] + mates[pos:]))
+                used.add(id(b))
+            if len(bad) >= 2 and good:
+                plans.append(("two-rejected-rows", [bad[0]] + others(key, None, 1) + [bad[1]]))
+            g2 = others(key, None, 3)
+            if len(g2) >= 2:
+                plans.append(("valid-rows-only", g2))
+        rng.shuffle(plans)
+        # batches whose rejected row has the adapter's priority first, then "one rejected row at index >= 1" first
+        plans.sort(key=lambda p_: (min([self.batch_priority(r) for r in p_[1] if not r[3]] or [9]),
+                                   0 if p_[0].startswith("one-rejected-row@>=1") else 1))
+        tot = {"batches": 0, "rows": 0, "nd": 0, "nc": 0, "coq_s": 0.0}
+        state = {"first": None}
+
+        def fake_of(m):
+            _, r_idx, r, acts, V, comp_kind, comp, lists = m
+            it = r[0]
+            ep = envh.Episode()
+            ep.steps = [([], a, False) for a in acts]
+            ep.checker = V
+            fake = Item(self, it.variant, it.env, it.td_in, it.td_reset, ep, dict(it.meta, corruption=r[1], solution_kind=r[1]),
+                        "batch%d@%d" % (len(comp), r_idx))
+            extra = {"batch_composition": comp_kind, "position": r_idx, "batch_verdict": V,
+                     "row_alone_verdicts": [bool(x[3]) for x in comp], "row_kinds": [x[1] for x in comp],
+                     "batch_instances": [hexrow(x[0].td_in) for x in comp], "batch_actions": lists,
+                     "how": "env.check_solution_validity(cat(batch_instances after reset), batch_actions) raises <=> batch_verdict is false"}
+            return fake, extra
+
+        def evaluate(plans_, cap_, tag_, searching=False):
+            cases, meta = [], []
+            n_b = 0
+            for comp_kind, comp in plans_:
+                if n_b >= cap_:
+                    break
+                L = max(len(r[2]) for r in comp)
+                if not self.batch_pad and any(len(r[2]) != L for r in comp):
+                    comp = [r for r in comp if len(r[2]) == L]
+                    if len(comp) < 2:
+                        continue
+                lists = [list(r[2]) + [0] * (L - len(r[2])) for r in comp]
+                try:
+                    td_b = torch.cat([r[0].td_reset for r in comp], 0)
+                except Exception:          # noqa: BLE001
+                    continue
+                V = envh.verdict(comp[0][0].env, td_b, torch.tensor(lists, dtype=torch.int64))
+                if V is None:
+                    continue
+                if searching and not V:
+                    continue               # the search looks for wrongly ACCEPTED rows only
+                try:
+                    insts = [self.coq_instance(r[0].env, r[0].td_reset, r[0].variant) for r in comp]
+                except ValueError:
+                    continue
+                n_b += 1
+                ctx.count("%s/c06_%s/%s/%s" % (self.name, prefix, comp_kind, "accepted" if V else "rejected"))
+                ctx.count("%s/c06_%s/distinct_instances_in_batch/%d" % (self.name, prefix, len({id(r[0].td_in) for r in comp})))
+                for r_idx, (r, inst, acts) in enumerate(zip(comp, insts, lists)):
+                    cases.append("(%s, %s, %s)" % (inst, cnatlist(acts), cbool(V)))
+                    meta.append((n_b, r_idx, r, acts, V, comp_kind, comp, lists))
+            if not cases:
+                return
+            _t0 = _t.time()
+            # few, large cases (every row carries its instance): four shards evaluated in parallel
+            codes = coq_eval_shards("cases_C06_%s_%s%s" % (self.name, prefix.replace("-", "_"), tag_), self.header, self.sol_type, self.sol_fn,
+                                    cases, shard=max(6, min(self.shard, (len(cases) + 3) // 4)))
+            tot["coq_s"] += _t.time() - _t0
+            tot["batches"] += n_b
+            tot["rows"] += len(cases)
+            by_batch = {}
+            for m, c in zip(meta, codes):
+                by_batch.setdefault(m[0], []).append((m, c))
+            for b, lst in sorted(by_batch.items()):
+                V = lst[0][0][4]
+                ctx.seen({"e": self.name, "c06batch": lst[0][0][7], "k": lst[0][0][5], "v": V,
+                          "i": [str(sorted((k, x[0].td_in[k].reshape(-1).tolist()) for k in x[0].td_in.keys())) for x in lst[0][0][6]]},
+                         nontrivial=True)
+                if V:
+                    for m, c in lst:
+                        if c == 0:
+                            continue
+                        tag, step = c % 1000, c // 1000
+                        fake, extra = fake_of(m)
+                        if tag in CONCRETE:
+                            tot["nc"] += 1
+                            ctx.failure(self.signature(fake, tag, step),
+                                        fake.replay(dict(extra, code=c, what=CONCRETE[tag] + " (as a row of an accepted batch)")), tag=self.name)
+                        elif not searching:
+                            tot["nd"] += 1
+                            state["first"] = state["first"] or (fake, c, extra)
+                else:
+                    if any(c == 0 for _, c in lst):
+                        continue           # some row is rejected by the row model / not required to be accepted: explains the verdict
+                    m, c = lst[0]
+                    fake, extra = fake_of(m)
+                    if all(c_ % 1000 == 14 for _, c_ in lst):
+                        tot["nc"] += 1
+                        ctx.failure(self.signature(fake, 14, c // 1000),
+                                    fake.replay(dict(extra, code=c, what="every row of the batch is feasible by the problem definition, the batch is rejected")),
+                                    tag=self.name)
+                    else:
+                        tot["nd"] += 1
+                        state["first"] = state["first"] or (fake, c, extra)
+
+        evaluate(plans, cap, "")
+        if tot["nd"] and not tot["nc"]:
+            more = []
+            for key in keys:
+                for b in split[key][1]:
+                    if id(b) in used:
+                        continue
+                    mates = others(key, b, 1)
+                    if mates:
+                        more.append(("search:one-rejected-row@>=1", mates + [b]))
+            rng.shuffle(more)
+            evaluate(more, 40 if tier == "quick" else 200, "_search", searching=True)
+            ctx.count("%s/c06_%s/search_batches" % (self.name, prefix), min(len(more), 40 if tier == "quick" else 200))
+        if state["first"]:
+            fake, c, extra = state["first"]
+            path = ctx.write_replay(fake.replay(dict(extra, code=c, what="batched checker verdict differs from what the row models say")),
+                                    tag="corr-" + self.name)
+            ctx.broken.append("correspondence C06/%s (checker on batches of solutions): %d disagreement(s); first: code %d, composition '%s', case file %s" % (
+                self.name, tot["nd"], c, extra["batch_composition"], path))
+        if not tot["rows"]:
+            return {}
+        return {"c06_%s_batches" % prefix: tot["batches"], "c06_%s_rows" % prefix: tot["rows"], "c06_%s_disagreements" % prefix: tot["nd"],
+                "c06_%s_concrete" % prefix: tot["nc"], "c06_%s_coq_s" % prefix: round(tot["coq_s"], 1),
+                "c06_%s_wall_s" % prefix: round(_t.time() - _t00, 1)}
